@@ -219,6 +219,18 @@ class Director:
             return f
         return None
 
+    def cancel_only_point(self, key, phase='before'):
+        """A place where only the planned cancel can fire (not listed among the boundary keys, no faults, gates or delays): the
+        individual reads of a request body by the transport."""
+        cp = self.cancel_plan
+        if cp and self.cancel_fired is None and cp['at'] == key and cp.get('phase', 'before') == phase:
+            with self._lock:
+                fire = self.cancel_fired is None
+                if fire:
+                    self.cancel_fired = {'key': key, 'phase': phase}
+            if fire and self.on_cancel_point:
+                self.on_cancel_point(cp)
+
     # -- parking -----------------------------------------------------------
     def parked_keys(self):
         with self._lock:
